@@ -347,6 +347,10 @@ package config
 //@ func CostSettings.validate [C18]
 //@   ensures result == nil ==> (cs.MaxEvaluationDuration != "" ==> durParses(cs.MaxEvaluationDuration)) && cs.MaxSeries >= 0 && cs.MaxTotalSamples >= 0 && cs.MaxPeakSamples >= 0
 
+// C18 (link): the timeout of a link{} block is parsed with the error dropped when the check is built.
+//@ func RuleLinkSettings.validate [C18]
+//@   ensures result == nil ==> (s.Timeout != "" ==> durParses(s.Timeout))
+
 // C18 (discovery): the uri of a prometheusQuery discovery block is handed to promapi.NewPrometheus, whose requests
 // parse it with the error dropped (Prometheus.doRequest): it must parse when the configuration is loaded.
 //@ func PrometheusQuery.validate [C18]
